@@ -289,8 +289,13 @@ pub fn gen_string(t: &mut Tape, len: usize) -> String {
         fancy -= 1;
     }
     let fill = b'a' + t.below(26) as u8;
-    while s.len() < len {
+    // EBML strings may be padded with trailing NUL octets: legal content that must survive every round trip
+    let pad = if t.chance(1, 8) { (1 + t.below(3)).min(len.saturating_sub(s.len())) } else { 0 };
+    while s.len() + pad < len {
         s.push(fill as char);
+    }
+    while s.len() < len {
+        s.push('\0');
     }
     s
 }
